@@ -31,6 +31,7 @@ type Obligation struct {
 	Model  string
 	Query  string
 	Inputs map[string]*Term // named input terms for model extraction
+	Replay *replayInfo
 }
 
 type Exec struct {
@@ -65,6 +66,8 @@ type Exec struct {
 	entry           *State
 	Bounded         []string
 	specNames       map[*Term]*Term
+	usedLemmas      []string
+	lastResults     []replayParam
 }
 
 func NewExec(p *Program, fn *ssa.Function, fc *FuncContract) *Exec {
@@ -145,6 +148,10 @@ func (x *Exec) oblige(st *State, kind, anchor string, goal *Term, text string, i
 	}
 	o := &Obligation{Name: x.funcLabel() + ":" + kind + ":" + anchor, Kind: kind, Func: x.funcLabel(), Props: props,
 		Assumes: st.AssumeList(), Goal: goal, Text: text, Pos: x.posOf(ins), Trace: strings.Join(st.Trace, " "), Inputs: x.Inputs}
+	o.Replay = x.replayInfo(st, nil)
+	if kind == "post" && x.lastResults != nil {
+		o.Replay = x.replayInfo(st, x.lastResults)
+	}
 	x.Obls = append(x.Obls, o)
 }
 
@@ -958,4 +965,21 @@ func (x *Exec) envAt(st *State) *Env {
 		oldVars[k] = v
 	}
 	return &Env{X: x, St: st, Old: st.Old, Vars: vars, OldVars: oldVars, FC: x.FC, PkgPath: x.Pkg}
+}
+
+func (x *Exec) replayInfo(st *State, results []replayParam) *replayInfo {
+	if x.Fn == nil || x.entry == nil {
+		return nil
+	}
+	ri := &replayInfo{Fn: x.Fn, Mode: x.A.Mode, Results: results}
+	for _, p := range x.Fn.Params {
+		ri.Params = append(ri.Params, replayParam{Name: p.Name(), Ty: p.Type(), V: x.ParamVals[p.Name()]})
+	}
+	if m, ok := x.entry.Mems["byte"]; ok {
+		ri.EntryMem = m
+	} else {
+		ri.EntryMem = Var("Mem0$byte", st.memSort(st.A.ByteSort()))
+	}
+	ri.FinalMem = st.Mems["byte"]
+	return ri
 }
